@@ -26,7 +26,7 @@ pub static MONITOR: Monitor = Monitor {
 fn plan(tier: Tier) -> Plan {
     match tier {
         Tier::Quick => Plan {
-            cases: 80_000,
+            cases: 160_000,
             time_cap_s: 40,
             case_timeout_s: 10,
             exhaustive: false,
